@@ -20,7 +20,7 @@ EXPLANATION = ("Proved: worker returns run_chain's rows for every send/timing or
                "thread timing is sampled through forced speed profiles; mpsc FIFO/eventual delivery is assumed.")
 TRUSTED = ["std::sync::mpsc (per-channel FIFO, send to a dropped receiver returns Err)", "std::thread::scope / spawn", "indicatif"]
 ASSUMPTIONS = ["a finite run delivers every sent message eventually"]
-WATCHDOG_S = 150
+WATCHDOG_S = 90
 
 
 def generate(rng, tier):
